@@ -54,3 +54,12 @@ func refderParse(enc []byte) ([]byte, int, error) {
 }
 
 func sha256sum(b []byte) []byte { h := sha256.Sum256(b); return h[:] }
+
+// refp7Parse returns the raw certificates embedded in a SignedData blob.
+func refp7Parse(blob []byte) ([][]byte, error) {
+	sd, err := refp7.Parse(blob)
+	if err != nil {
+		return nil, err
+	}
+	return sd.Certs, nil
+}
